@@ -3,7 +3,13 @@
 // dialer and the response modifier were called with, what the client
 // received, and what the proxy did to the client socket after a hijack.
 //
-// IN tokens:  [D] (K req*)+   one K per client connection (played one after the other)
+// IN tokens:  P <nconn> <nreq>   a batch of nconn CONCURRENT connections, nreq passing plain requests each
+//
+//	OUT: E.conn.ctx.sess per exchange (sorted by connection, then request; IDs renamed to
+//	first-occurrence index in that order), RESMISMATCH if a response modifier saw other IDs than
+//	the request modifier of its exchange, MISSING.conn.seq for an unanswered request, F.live
+//
+// or          [D] (K req*)+   one K per client connection (played one after the other)
 //
 //	D    the proxy is configured with a downstream proxy (SetDownstreamProxy): a blindly
 //	     tunnelled CONNECT is sent to that proxy, which answers it and carries the tunnel;
@@ -745,7 +751,143 @@ func (e *env) playConn(addr string, toks []reqTok, base int, roots *tls.Config) 
 	}
 }
 
+// ---------------------------------------------------------------- concurrent batch
+
+type concMod struct {
+	mu       sync.Mutex
+	ids      map[[2]int][2]string // (conn, seq) -> ctx ID, session ID seen by the request modifier
+	mismatch bool
+}
+
+func concKey(h http.Header) ([2]int, bool) {
+	k, err1 := strconv.Atoi(h.Get("X-Conn"))
+	i, err2 := strconv.Atoi(h.Get("X-Seq"))
+	return [2]int{k, i}, err1 == nil && err2 == nil
+}
+
+func (m *concMod) ModifyRequest(req *http.Request) error {
+	key, ok := concKey(req.Header)
+	ctx := martian.NewContext(req)
+	if !ok || ctx == nil || ctx.Session() == nil {
+		return nil
+	}
+	m.mu.Lock()
+	m.ids[key] = [2]string{ctx.ID(), ctx.Session().ID()}
+	m.mu.Unlock()
+	return nil
+}
+
+func (m *concMod) ModifyResponse(res *http.Response) error {
+	if res.Request == nil {
+		return nil
+	}
+	key, ok := concKey(res.Request.Header)
+	ctx := martian.NewContext(res.Request)
+	m.mu.Lock()
+	defer m.mu.Unlock()
+	if want, seen := m.ids[key]; ok && seen && (ctx == nil || ctx.Session() == nil || want != [2]string{ctx.ID(), ctx.Session().ID()}) {
+		m.mismatch = true
+	}
+	return nil
+}
+
+func (m *concMod) RoundTrip(req *http.Request) (*http.Response, error) {
+	if req.Body != nil {
+		req.Body.Close()
+	}
+	return &http.Response{
+		StatusCode: 203, Status: "203 Non-Authoritative Information", Proto: "HTTP/1.1", ProtoMajor: 1, ProtoMinor: 1,
+		Header: http.Header{"Content-Type": {"text/plain"}}, Body: io.NopCloser(strings.NewReader("ok")), ContentLength: 2, Request: req,
+	}, nil
+}
+
+func runConc(in []string) (out []string) {
+	if len(in) != 3 {
+		return []string{"BADCASE"}
+	}
+	nc, err1 := strconv.Atoi(in[1])
+	nr, err2 := strconv.Atoi(in[2])
+	if err1 != nil || err2 != nil || nc < 1 || nr < 1 || nc > 128 || nr > 5000 {
+		return []string{"BADCASE"}
+	}
+	m := &concMod{ids: map[[2]int][2]string{}}
+	l, err := net.Listen("tcp", "127.0.0.1:0")
+	if err != nil {
+		return []string{"LISTENERR"}
+	}
+	p := martian.NewProxy()
+	p.SetTimeout(20 * time.Second)
+	p.SetRoundTripper(m)
+	p.SetRequestModifier(m)
+	p.SetResponseModifier(m)
+	go p.Serve(l)
+	answered := make([][]bool, nc)
+	var wg sync.WaitGroup
+	start := make(chan struct{})
+	for k := 0; k < nc; k++ {
+		answered[k] = make([]bool, nr)
+		wg.Add(1)
+		go func(k int) {
+			defer wg.Done()
+			c, err := net.DialTimeout("tcp", l.Addr().String(), 5*time.Second)
+			if err != nil {
+				return
+			}
+			defer c.Close()
+			br := bufio.NewReader(c)
+			<-start
+			for i := 0; i < nr; i++ {
+				c.SetDeadline(time.Now().Add(respWait + 6*time.Second))
+				fmt.Fprintf(c, "GET http://origin.test/c%d/%d HTTP/1.1\r\nHost: origin.test\r\nX-Conn: %d\r\nX-Seq: %d\r\n\r\n", k, i, k, i)
+				res, err := http.ReadResponse(br, &http.Request{Method: "GET"})
+				if err != nil {
+					return
+				}
+				io.Copy(io.Discard, res.Body)
+				res.Body.Close()
+				answered[k][i] = res.StatusCode == 203
+			}
+		}(k)
+	}
+	close(start)
+	wg.Wait()
+	done := make(chan struct{})
+	go func() { p.Close(); close(done) }()
+	select {
+	case <-done:
+	case <-time.After(6 * time.Second):
+		out = append(out, "STUCK")
+	}
+	cidx, sidx := map[string]int{}, map[string]int{}
+	ren := func(mm map[string]int, id string) int {
+		if v, ok := mm[id]; ok {
+			return v
+		}
+		mm[id] = len(mm)
+		return mm[id]
+	}
+	m.mu.Lock()
+	for k := 0; k < nc; k++ {
+		for i := 0; i < nr; i++ {
+			ids, ok := m.ids[[2]int{k, i}]
+			if !ok || !answered[k][i] {
+				out = append(out, fmt.Sprintf("MISSING.%d.%d", k, i))
+				continue
+			}
+			out = append(out, fmt.Sprintf("E.%d.%d.%d", k, ren(cidx, ids[0]), ren(sidx, ids[1])))
+		}
+	}
+	if m.mismatch {
+		out = append(out, "RESMISMATCH")
+	}
+	m.mu.Unlock()
+	return append(out, fmt.Sprintf("F.%d", martian.VerifLiveContexts()))
+}
+
 func runCase(in []string) (out []string) {
+	if len(in) > 0 && in[0] == "P" {
+		return runConc(in)
+	}
 	via := false
 	if len(in) > 0 && in[0] == "D" {
 		via, in = true, in[1:]
@@ -941,6 +1083,10 @@ func main() {
 			}
 		}
 		cfg.Emit(hx.Case{Name: fmt.Sprintf("%s%d", kind, n), In: in, Out: runCase(in)})
+		if len(in) > 0 && in[0] == "P" {
+			cfg.Count("concurrent_batch=" + strings.Join(in[1:], "x"))
+			return
+		}
 		nreq, modes := 0, map[byte]bool{}
 		for _, t := range in {
 			if t == "D" {
@@ -963,6 +1109,9 @@ func main() {
 		}
 	}
 	pre, replayOnly := cfg.Inputs()
+	if cfg.Extra == "conconly" {
+		pre = nil
+	}
 	for _, c := range pre {
 		cfg.Emit(hx.Case{Name: c.Name, In: c.In, Out: runCase(c.In)})
 	}
@@ -975,6 +1124,23 @@ func main() {
 		return
 	}
 
+	// 0. batches of concurrent keep-alive connections: context and session identifiers over ALL
+	//    exchanges of a run (volume: a shared scratch buffer in newID shows as a few percent repeats
+	//    only under real contention).  With -extra conconly (side run under the race detector)
+	//    only smaller batches are run.
+	if cfg.Extra == "conconly" {
+		for k := 0; k < 3; k++ {
+			emit("concrace", []string{"P", strconv.Itoa([]int{16, 32, 8}[k]), strconv.Itoa([]int{40, 20, 80}[k])})
+		}
+		return
+	}
+	nb := 4
+	if cfg.Thorough() {
+		nb = 24
+	}
+	for k := 0; k < nb; k++ {
+		emit("conc", []string{"P", strconv.Itoa([]int{48, 64, 32, 48}[k%4]), strconv.Itoa([]int{400, 250, 500, 300}[k%4])})
+	}
 	// 1. every combination of behaviour flags for a single request in every mode
 	//    (plain: 8 x 4 x 4 x 2; CONNECT blind / MITM: 8 x 2 x 4 x 2)
 	for _, m := range []byte("gbm") {
